@@ -57,12 +57,15 @@ FIXED = {
                   {"args": [["int", 1]]}],
     },
     "dep": {
-        "spec": {"classes": _CL, "hooks": [{"name": "H0", "true_for": ["K1", "K3"]}],
-                 "deps": [{"name": "P0", "bound": "object", "mod": 2, "eq": 0}], "methods": {
+        "spec": {"classes": _CL, "hooks": [{"name": "H0", "true_for": ["K0", "K1", "K3"]}],
+                 "deps": [{"name": "P0", "bound": "object", "mod": 2, "eq": 0},
+                          {"name": "P1", "bound": "object", "mod": 3, "eq": 1}], "methods": {
             "m0": _m(["o"], ["leaf"]), "m1": _m(["d", "K0", "P0"], ["next"]),
             "m2": _m(["h", "H0"], ["next"], prio=1), "m3": _m(["c", "K0"], ["rec_next"]),
+            # intersection of two value-dependent types: its checking code is assembled from parts
+            "m4": _m(["i", [["d", "K0", "P0"], ["d", "K0", "P1"]]], ["next"], prio=2),
         }, "meta": _META1},
-        "regs": [["m0"], ["m1"], ["m2"], ["m3"]],
+        "regs": [["m0"], ["m1"], ["m2"], ["m3"], ["m4"]],
         "calls": [{"args": [["n", "K1", 0, [["n", "K2", 1, []]]]]}, {"args": [["n", "K2", 2, []]]},
                   {"args": [["n", "K0", 1, []]]}],
     },
@@ -92,6 +95,8 @@ FIXED_SHAPES = {
     "S3_miss_same": (2, 0, 0),
     "S4_miss_diff": (2, 0, 1),
     "S5_chain_vs_warm": (1, 0, 1),
+    "S2b_first_diff": (None, 0, 2),
+    "S4b_miss_diff": (1, 0, 2),
 }
 
 
@@ -342,16 +347,24 @@ def run_job(job):
         tr_a, tr_b = solo_trace(base, a), solo_trace(base, b)
         f1 = ("ensure_compiled", "_is_built", "f") if not job.get("wide") else \
             ("ensure_compiled", "_is_built", "f", "compile", "resolve", "__missing__")
-        l1 = [loc for loc in dict.fromkeys(tr_a)
-              if loc.split(":")[1] in f1 and not loc.startswith("<simworld>")]
-        l2 = [loc for loc in dict.fromkeys(tr_b)
-              if loc.startswith(("<ovld>", "<simworld>", "typemap.py:"))]
-        pairs = [(x, y) for x in l1 for y in l2]
+        if job.get("wide") == "all":
+            # every line of the resolution / code generation path of A x the same of B
+            keep = ("dependent.py:", "recode.py:generate_dependent_dispatch",
+                    "typemap.py:wrap_dependent", "typemap.py:resolve")
+            l1 = [loc for loc in dict.fromkeys(tr_a) if loc.startswith(keep)]
+            l2 = [loc for loc in dict.fromkeys(tr_b) if loc.startswith(keep)]
+        else:
+            l1 = [loc for loc in dict.fromkeys(tr_a)
+                  if loc.split(":")[1] in f1 and not loc.startswith("<simworld>")]
+            l2 = [loc for loc in dict.fromkeys(tr_b)
+                  if loc.startswith(("<ovld>", "<simworld>", "typemap.py:"))]
+        nths = (1, 2) if job.get("wide") == "all" else (1,)
+        pairs = [(x, n, y) for x in l1 for n in nths if tr_a.count(x) >= n for y in l2]
         stats["by_shape"]["pairs:" + job["shape"]] = 0
         for i in range(job["part"], len(pairs), job["stride"]):
-            x, y = pairs[i]
+            x, n, y = pairs[i]
             scen = dict(base)
-            scen["strategy"] = {"kind": "placed", "places": [[a, x, 1, b], [b, y, 1, a]]}
+            scen["strategy"] = {"kind": "placed", "places": [[a, x, n, b], [b, y, 1, a]]}
             scen["first"] = a
             r = run_one(scen, stats, violations)
             stats["by_shape"]["pairs:" + job["shape"]] += 1
@@ -374,6 +387,12 @@ def run_job(job):
 
 def jobs(tier, seed):
     stride = 6 if tier == "quick" else 12
+    if tier == "thorough":
+        for shape in ("S2_first_diff", "S2b_first_diff", "S4_miss_diff"):
+            for victim in (0, 1):
+                for part in range(32):
+                    yield {"kind": "fixed_pairs", "name": "dep", "shape": shape, "victim": victim,
+                           "stride": 32, "part": part, "wide": "all"}
     for name in FIXED:
         for shape in FIXED_SHAPES:
             for victim in (0, 1):
